@@ -83,13 +83,14 @@ var errBudget = errors.New("verif: bucket operation budget exceeded")
 var errInjected = errors.New("verif: injected object store failure")
 
 // bucketFault is a selective / transient failure of the object store (everything else keeps working):
-//   t:<k>          the k-th mutating call (upload or delete) of the cycle fails once
-//   d:<n>          uploads of block data (every object that is not a *.json: chunks/…, index) fail, the first n of them (0 = all, for good)
-//   b:<bytes>:<n>  uploads of objects larger than <bytes> fail, the first n of them (0 = all, for good)
-//   g:<mode>:<k>   READ fault: the k-th Get of a *.json object (meta.json, deletion / no-compact marks) of a compactor
-//                  process fails; mode e = the call returns an error, h = the call succeeds and the body breaks after half
-//                  of the object (connection reset), n = the store answers "not found" although the object exists
-//   o:<mode>:<j>:<n>  READ fault on one object: the first n Gets of the meta.json of the j-th source block fail that way
+//
+//	t:<k>          the k-th mutating call (upload or delete) of the cycle fails once
+//	d:<n>          uploads of block data (every object that is not a *.json: chunks/…, index) fail, the first n of them (0 = all, for good)
+//	b:<bytes>:<n>  uploads of objects larger than <bytes> fail, the first n of them (0 = all, for good)
+//	g:<mode>:<k>   READ fault: the k-th Get of a *.json object (meta.json, deletion / no-compact marks) of a compactor
+//	               process fails; mode e = the call returns an error, h = the call succeeds and the body breaks after half
+//	               of the object (connection reset), n = the store answers "not found" although the object exists
+//	o:<mode>:<j>:<n>  READ fault on one object: the first n Gets of the meta.json of the j-th source block fail that way
 type bucketFault struct {
 	kind   string
 	k      int
@@ -134,17 +135,17 @@ func parseFault(s string) (*bucketFault, bool) {
 // crashBucket wraps the raw bucket: after crashAt mutating operations every call fails.
 type crashBucket struct {
 	objstore.Bucket
-	mu      sync.Mutex
-	mutOps  int
-	crashAt int
-	budget  int
-	crashed bool
-	overrun bool
-	onMut   func(kind, name string)
+	mu       sync.Mutex
+	mutOps   int
+	crashAt  int
+	budget   int
+	crashed  bool
+	overrun  bool
+	onMut    func(kind, name string)
 	onFault  func()
 	fault    *bucketFault // shared across restarts: an outage does not end because the compactor restarted
-	attempts int // mutating calls attempted (failed ones included)
-	maxTries int // bound on the injected failures one scenario may run into
+	attempts int          // mutating calls attempted (failed ones included)
+	maxTries int          // bound on the injected failures one scenario may run into
 }
 
 // inject decides whether this mutating call fails because of the selective fault.
@@ -1200,7 +1201,7 @@ func genC29(c *hlib.Ctx) {
 		}
 		// READ faults on meta.json / marker reads, on blocks older than the partial-upload threshold, in the full iteration
 		// order (progress sync + cleanup tick, then compactMainFn): call error, body cut in the middle, "not found" lie
-		if c.Tier != "quick" || i%3 == 2 || i == 0 {
+		if (c.Tier != "quick" && i%2 == 0) || (c.Tier == "quick" && (i%3 == 2 || i == 0)) {
 			var rf []string
 			nb := len(sc.blocks)
 			js := []int{1, nb}
@@ -1220,7 +1221,7 @@ func genC29(c *hlib.Ctx) {
 				rf = append(rf, fmt.Sprintf("o:e:%d:2", j))
 			}
 			rf = append(rf, fmt.Sprintf("o:n:%d:1", 1+r.Intn(nb)))
-			maxK := 6 * nb
+			maxK := 4 * nb
 			if c.Tier == "quick" {
 				for t := 0; t < 3; t++ {
 					rf = append(rf, fmt.Sprintf("g:%s:%d", []string{"h", "e", "h"}[t], 1+r.Intn(maxK)))
